@@ -1,7 +1,8 @@
 """Texts of MANIFEST.json per claimed property."""
 HOOK_COMMITS = ["e612c74 verif hook: cfg(nomt_verif)-guarded I/O event hook and rollback segment size override",
                 "41b843e verif hook: report the hash-table fsync of bitbox recovery (cfg nomt_verif)",
-                "44a4879 verif hook: verif_api exposing the free list and bitbox probing to the harness (cfg nomt_verif)"]
+                "44a4879 verif hook: verif_api exposing the free list and bitbox probing to the harness (cfg nomt_verif)",
+                "aa0c667 verif hook: Nomt::verif_load_page (Store::load_page for an arbitrary page) and BucketIndex::verif_index (cfg nomt_verif)"]
 NOTES = "All claimed checks use one technique: machine-checked proof in Lean 4 about a hand-written model, tied to /repo by a correspondence (differential) run of the compiled Lean model against the real code on every invocation. See DESIGN.md."
 NOT_YET = {}
 CLAIMS = {
